@@ -12,18 +12,55 @@ theorem JobOK.kinds {cfg : Cfg} {s : St} {d : Disk} {j : Job} (h : JobOK cfg s d
   unfold JobKindOK at hk
   cases hkk : j.kind <;> rw [hkk] at hk <;> simp_all
 
+theorem JobOK.kind_running {cfg : Cfg} {s : St} {d : Disk} {j : Job} (h : JobOK cfg s d j) (hr : s.phase = .running) :
+    j.kind = .flush ∨ j.kind = .compaction ∨ j.kind = .tr := by
+  have hk := h.kind
+  unfold JobKindOK at hk
+  rcases h.kinds with hkk | hkk | hkk | hkk | hkk
+  · exact Or.inl hkk
+  · rw [hkk] at hk; simp only at hk; rw [hr] at hk; exact absurd hk.1 (by decide)
+  · rw [hkk] at hk; simp only at hk; rw [hr] at hk; exact absurd hk.1 (by decide)
+  · exact Or.inr (Or.inl hkk)
+  · exact Or.inr (Or.inr hkk)
+
+/-- without a ghost edit the session mirrors the last view before the commit -/
+theorem Inv.mirror_nolimbo {cfg : Cfg} {s : St} {d : Disk} (h : Inv cfg s d) {j : Job} (hj : s.job = some j)
+    (hbc : j.pc.beforeCommit = true) (hl : s.limbo = none) : Holds (lastView cfg d) (Mirror s) := by
+  have hok := h.job
+  rw [hj] at hok
+  have hsett := (hok : JobOK cfg s d j).mirror_before hbc
+  obtain ⟨mf, v0, v, hparts, hv, _, _, _⟩ := h.disk.last
+  unfold Settled at hsett
+  have hm := (holds_some hsett hparts.cur).2
+  rw [hv] at hm ⊢
+  exact (MirrorL.of_none hl).1 hm
+
+/-- the edit of a job of the running DB is good relative to any base view -/
+theorem Inv.editOK_base {cfg : Cfg} {s : St} {d : Disk} (h : Inv cfg s d) {j : Job} (hj : s.job = some j)
+    {e : MRec} (he : j.edit = some e) (hbc : j.pc.beforeCommit = true) (hr : s.phase = .running)
+    {v : MView} (hbase : BaseView cfg s d v) : EditOK s d j e v := by
+  have hok := h.job
+  rw [hj] at hok
+  rcases (hok : JobOK cfg s d j).kind_running hr with hk | hk | hk
+  · exact h.editOK_flush hj hk he hbc hbase
+  · exact h.editOK_compaction hj hk he hbc hbase
+  · exact h.editOK_tr hj hk he hbc hbase
+
 theorem Inv.editOK {cfg : Cfg} {s : St} {d : Disk} (h : Inv cfg s d) {j : Job} (hj : s.job = some j)
     {e : MRec} (he : j.edit = some e) (hbc : j.pc.beforeCommit = true)
-    (hpc : j.pc ≠ .mkJournal ∧ j.pc.tablesDone = true) :
+    (hpc : j.pc ≠ .mkJournal ∧ j.pc.tablesDone = true) (hl : s.limbo = none) :
     ∃ v, lastView cfg d = some v ∧ EditOK s d j e v := by
   have hok := h.job
   rw [hj] at hok
   rcases hok.kinds with hk | hk | hk | hk | hk
-  · exact h.editOK_flush hj hk he hbc
+  · obtain ⟨_, _, v, _, hv, _, _, hb⟩ := h.baseView hj hbc hl (h.mirror_nolimbo hj hbc hl)
+    exact ⟨v, hv, h.editOK_flush hj hk he hbc hb⟩
   · exact h.editOK_recovMid hj hk he hbc
   · exact h.editOK_recovFinal hj hk he hbc hpc
-  · exact h.editOK_compaction hj hk he hbc
-  · exact h.editOK_tr hj hk he hbc
+  · obtain ⟨_, _, v, _, hv, _, _, hb⟩ := h.baseView hj hbc hl (h.mirror_nolimbo hj hbc hl)
+    exact ⟨v, hv, h.editOK_compaction hj hk he hbc hb⟩
+  · obtain ⟨_, _, v, _, hv, _, _, hb⟩ := h.baseView hj hbc hl (h.mirror_nolimbo hj hbc hl)
+    exact ⟨v, hv, h.editOK_tr hj hk he hbc hb⟩
 
 /-- the journals a recovery still has to replay are not below the journal number of the job's edit -/
 theorem Inv.todo_ge_edit {cfg : Cfg} {s : St} {d : Disk} (h : Inv cfg s d) {j : Job} (hj : s.job = some j)
@@ -71,14 +108,14 @@ theorem Inv.todo_ge_edit {cfg : Cfg} {s : St} {d : Disk} (h : Inv cfg s d) {j : 
 /-- the view after the job's edit is good -/
 theorem Inv.commit_view {cfg : Cfg} {s : St} {d : Disk} (h : Inv cfg s d) {j : Job} (hj : s.job = some j)
     {e : MRec} (he : j.edit = some e) (hbc : j.pc.beforeCommit = true)
-    (hpc : j.pc ≠ .mkJournal ∧ j.pc.tablesDone = true) :
+    (hpc : j.pc ≠ .mkJournal ∧ j.pc.tablesDone = true) (hl : s.limbo = none) :
     ∃ mf v0 v, DiskOK.Parts cfg d (must s) (issuedGrps s) mf v0 ∧ lastView cfg d = some v ∧
       viewAt cfg mf mf.unsynced.length = some v ∧ EditOK s d j e v ∧
       ViewOK d (must s) (issuedGrps s) ⟨applyEdit v.live e, e.jn.getD v.jn, e.sq.getD v.sq, s.nextFile⟩ ∧
       v0.jn ≤ e.jn.getD v.jn := by
   have hok := h.job
   rw [hj] at hok
-  obtain ⟨v, hv, hed⟩ := h.editOK hj he hbc hpc
+  obtain ⟨v, hv, hed⟩ := h.editOK hj he hbc hpc hl
   obtain ⟨mf, v0, v', hparts, hv', hvl, hvok, hmono⟩ := h.disk.last
   rw [hv] at hv'; cases hv'
   have hb := h.bounds (h.not_crashed hj)
@@ -121,7 +158,15 @@ theorem JobOK.late_next {cfg : Cfg} {s : St} {d d' : Disk} {j : Job} (h : JobOK 
   · intro hb
     obtain ⟨hb1, hcm⟩ := hbc hb
     rw [hcm, k2, k3]
-    exact h4.2 hb1
+    have hret : j'.pc.retry = true := by
+      have h1 := hlate'.1
+      have h2 := hlate'.2
+      have h3 : j'.pc.beforeCommit = true := hb
+      cases hp : j'.pc <;> rw [hp] at h1 h2 h3 <;> simp_all [JPc.retry, JPc.beforeCommit, JPc.tablesDone]
+    refine (h4.2 hb1).imp (fun mf hmf k hk => (hmf k hk).imp (fun v hv => ⟨fun o ho => ?_, hv.2⟩))
+    rcases hv.1 o ho with h0 | h0
+    · exact Or.inl h0
+    · exact Or.inr ⟨hret, h0.2.1, by rw [k4]; exact h0.2.2.1, h0.2.2.2⟩
   · rw [k4, k2]; exact h5
   · intro i o hio
     rw [k2] at hio
@@ -155,18 +200,6 @@ theorem JobOK.late_next {cfg : Cfg} {s : St} {d d' : Disk} {j : Job} (h : JobOK 
     · rintro (hx | hx)
       · exact absurd hx hlate.1
       · rw [hlate.2] at hx; cases hx
-
-/-- in the running phase a job is a memdb flush, a table compaction or the commit of a transaction -/
-theorem JobOK.kind_running {cfg : Cfg} {s : St} {d : Disk} {j : Job} (h : JobOK cfg s d j) (hr : s.phase = .running) :
-    j.kind = .flush ∨ j.kind = .compaction ∨ j.kind = .tr := by
-  have hk := h.kind
-  unfold JobKindOK at hk
-  rcases h.kinds with hkk | hkk | hkk | hkk | hkk
-  · exact Or.inl hkk
-  · rw [hkk] at hk; simp only at hk; rw [hr] at hk; exact absurd hk.1 (by decide)
-  · rw [hkk] at hk; simp only at hk; rw [hr] at hk; exact absurd hk.1 (by decide)
-  · exact Or.inr (Or.inl hkk)
-  · exact Or.inr (Or.inr hkk)
 
 /-- a compaction's edit carries neither a journal nor a sequence number; every other edit deletes nothing and
     carries a sequence number, and, except for a transaction, a journal number -/
@@ -216,13 +249,11 @@ theorem JobOK.jn_getD {cfg : Cfg} {s : St} {d : Disk} {j : Job} (h : JobOK cfg s
 /-- the argument `RunOK.job_step` wants about the frozen buffer, for a step that ends behind the commit: a
     flush job has committed (nothing to show), a compaction does not touch the journal and sequence numbers, a
     transaction has no frozen buffer beside it -/
-theorem RunOK.hnc_post {cfg : Cfg} {s : St} {d d' : Disk} {j j' : Job} (hrun : RunOK cfg s d) (hok : JobOK cfg s d j)
+theorem RunOK.hnc_post {cfg : Cfg} {s : St} {d : Disk} {j j' : Job} (hrun : RunOK cfg s d) (hok : JobOK cfg s d j)
     (hj : s.job = some j) (hr : s.phase = .running) (hk' : j'.kind = j.kind) (hpost : j'.pc.beforeCommit = false)
     {nf' : Nat} {l' : List Nat} {a' b' : Nat} {m' : Option Nat} {o' : Bool}
-    (hv : j.kind = .compaction →
-      Holds (lastView cfg d') fun v' => Holds (lastView cfg d) fun v => v'.jn ≤ v.jn ∧ v'.sq ≤ v.sq) :
-    s.frozen ≠ none → FlushPending (s.upd j' nf' l' a' b' m' o') → FlushPending s ∧
-      Holds (lastView cfg d') fun v' => Holds (lastView cfg d) fun v => v'.jn ≤ v.jn ∧ v'.sq ≤ v.sq := by
+    (hv : j.kind = .compaction → a' = s.stJn ∧ b' = s.stSq) :
+    s.frozen ≠ none → FlushPending (s.upd j' nf' l' a' b' m' o') → FlushPending s ∧ a' = s.stJn ∧ b' = s.stSq := by
   intro hfz hfp
   have hfp' : j'.kind = .flush → j'.pc.beforeCommit = true := hfp
   rcases hok.kind_running hr with hk | hk | hk
@@ -287,5 +318,235 @@ theorem ViewBounds.append {cfg : Cfg} {s s' : St} {d : Disk} {m : Nat} (h : View
       subst this
       rw [viewAt_append_last]
       exact hnew mf hcm
+
+/-- the ghost edit exists only in the running phase, and only while `manifestFailed` is set -/
+theorem Inv.limbo_none {cfg : Cfg} {s : St} {d : Disk} (h : Inv cfg s d)
+    (hmf : s.phase = .running → s.manifestFailed = false) : s.limbo = none := by
+  rcases hp : s.phase with _ | _ | _
+  · exact (h.crashed hp).2.2.2.2
+  · have := h.recov hp
+    rw [holds_iff] at this
+    obtain ⟨r, _, hr⟩ := this
+    exact hr.idle.2.2.2
+  · have hl := (h.run hp).limbo
+    unfold LimboOK at hl
+    cases hu : s.limbo with
+    | none => rfl
+    | some u =>
+      rw [hu] at hl
+      have := (hl : LimboFacts s d u).1
+      rw [hmf hp] at this; cases this
+
+theorem Inv.limbo_none_of_recovering {cfg : Cfg} {s : St} {d : Disk} (h : Inv cfg s d) (hp : s.phase ≠ .running) :
+    s.limbo = none := h.limbo_none (fun hr => absurd hr hp)
+
+/-! ## the storage one edit ahead of the session -/
+
+theorem applyEdit_orphan {live : List Nat} {u : MRec} {t : Nat} (hd : u.deleted = []) (ha : u.added = [t])
+    (hlt : ∀ x ∈ live, x < t) : applyEdit live u = live ++ [t] := by
+  unfold applyEdit
+  rw [hd, ha]
+  congr 1
+  rw [List.filter_eq_self]
+  intro x hx
+  have := hlt x hx
+  simp
+  omega
+
+/-- the last view of the manifest without the table of a discarded transaction is good as well: the view the
+    session holds -/
+theorem ViewOK.drop_orphan {s : St} {d : Disk} {vl : MView} {u : MRec}
+    (hvl : ViewOK d (must s) (issuedGrps s) vl) (hm : MirrorE s u vl) (hf : LimboFacts s d u) (ho : OrphanOK s d u) :
+    ViewOK d (must s) (issuedGrps s) ⟨s.live, s.stJn, s.stSq, vl.nf⟩ ∧ vl.jn = s.stJn ∧ s.stSq ≤ vl.sq := by
+  obtain ⟨m1, m2, m3⟩ := hm
+  obtain ⟨_, _, _, f4, f5, f6, _, _⟩ := hf
+  obtain ⟨o1, o2, o3⟩ := ho
+  rw [holds_iff] at o3
+  obtain ⟨t, ht, hadd, _, o4⟩ := o3
+  rw [holds_iff] at o4
+  obtain ⟨tf, htf, _, _, o5⟩ := o4
+  rw [holds_iff] at o5
+  obtain ⟨g, _, hgrps, _, hgm, _, _, _⟩ := o5
+  have hjn : vl.jn = s.stJn := by rw [m2, o2]; rfl
+  have hsq : s.stSq ≤ vl.sq := by rw [m3]; exact f5
+  have hlive : vl.live = s.live ++ [t] := by
+    rw [m1]
+    exact applyEdit_orphan o1 hadd (fun x hx => (f6 x hx).1 t (by rw [hadd]; exact List.mem_singleton.2 rfl))
+  have hsubL : ∀ x ∈ s.live, x ∈ vl.live := fun x hx => by rw [hlive]; exact List.mem_append_left _ hx
+  have hsubG : ∀ x ∈ liveGrps d ⟨s.live, s.stJn, s.stSq, vl.nf⟩, x ∈ liveGrps d vl := by
+    intro x hx
+    obtain ⟨t', ht', hxt⟩ := List.mem_flatMap.1 hx
+    exact List.mem_flatMap.2 ⟨t', hsubL t' ht', hxt⟩
+  have hrel : relJournals d s.stJn = relJournals d vl.jn := by rw [hjn]
+  refine ⟨⟨fun t' ht' => hvl.tables t' (hsubL t' ht'), fun x hx => ?_, fun x hx y hy => hvl.tdisj x (hsubG x hx) y (hsubG y hy),
+    fun p hp x hx => ?_, fun x hx p hp y hy => hvl.tj x (hsubG x hx) p (by rw [← hrel]; exact hp) y hy,
+    fun x hx => ?_, by show s.stJn < vl.nf; rw [← hjn]; exact hvl.jnf⟩, hjn, hsq⟩
+  · obtain ⟨_, b, c⟩ := hvl.tseq x (hsubG x hx)
+    obtain ⟨t', ht', hxt⟩ := List.mem_flatMap.1 hx
+    exact ⟨(f6 t' ht').2 x hxt, b, c⟩
+  · have hp' : p ∈ relJournals d vl.jn := by rw [← hrel]; exact hp
+    obtain ⟨a, b⟩ := hvl.jseq p hp' x hx
+    refine ⟨a.imp (fun h1 => ?_) id, b⟩
+    show s.stSq ≤ x.seq
+    omega
+  · rcases hvl.cover x hx with h1 | h1
+    · left
+      obtain ⟨t', ht', hxt⟩ := List.mem_flatMap.1 h1
+      rw [hlive] at ht'
+      rcases List.mem_append.1 ht' with h2 | h2
+      · exact List.mem_flatMap.2 ⟨t', h2, hxt⟩
+      · simp only [List.mem_singleton] at h2
+        subst h2
+        unfold tableGrpsOf at hxt
+        rw [htf] at hxt
+        simp only [Option.map_some, Option.getD_some, hgrps, List.mem_singleton] at hxt
+        subst hxt
+        exact absurd hx hgm
+    · right
+      rw [hrel]
+      exact h1
+
+/-- the session's tables lie below what a job's edit adds, their groups below the session's sequence number -/
+theorem ViewOK.live_clause {s : St} {d : Disk} {M I : List Grp} {v : MView} {e : MRec} {j : Job}
+    (hvok : ViewOK d M I v) (m1 : v.live = s.live) (m3 : v.sq = s.stSq) (hadd : e.added = j.outs.map (·.1))
+    (hfr : ∀ o ∈ j.outs, v.nf ≤ o.1) :
+    ∀ t ∈ s.live, (∀ a ∈ e.added, t < a) ∧ ∀ g ∈ tableGrpsOf d t, g.fin ≤ s.stSq + 1 := by
+  intro t ht
+  rw [← m1] at ht
+  refine ⟨fun a ha => ?_, fun g hg => ?_⟩
+  · rw [hadd] at ha
+    obtain ⟨o, ho, rfl⟩ := List.mem_map.1 ha
+    have h1 := (hvok.tables t ht).1
+    have h2 := hfr o ho
+    omega
+  · have := (hvok.tseq g (List.mem_flatMap.2 ⟨t, ht, hg⟩)).1
+    omega
+
+/-- **the view the commit of the job's edit produces is good** — also while the storage is one edit ahead of the
+    session: if that edit is the job's own (its commit is being retried) the view is the last view of the manifest;
+    if it is a discarded transaction's, the session's view is that last view without the transaction's table -/
+theorem Inv.commit_view' {cfg : Cfg} {s : St} {d : Disk} (h : Inv cfg s d) {j : Job} (hj : s.job = some j)
+    {e : MRec} (he : j.edit = some e) (hbc : j.pc.beforeCommit = true)
+    (hpc : j.pc ≠ .mkJournal ∧ j.pc.tablesDone = true) :
+    ∃ mf v0, DiskOK.Parts cfg d (must s) (issuedGrps s) mf v0 ∧
+      ViewOK d (must s) (issuedGrps s) ⟨applyEdit s.live e, e.jn.getD s.stJn, e.sq.getD s.stSq, s.nextFile⟩ ∧
+      v0.jn ≤ e.jn.getD s.stJn ∧ s.stJn ≤ e.jn.getD s.stJn ∧ e.sq.getD s.stSq ≤ sqCap s j ∧
+      (s.phase = .running → e.jn.getD s.stJn ≤ s.jcur) ∧ s.stSq ≤ e.sq.getD s.stSq ∧
+      ∀ t ∈ s.live, (∀ a ∈ e.added, t < a) ∧ ∀ g ∈ tableGrpsOf d t, g.fin ≤ s.stSq + 1 := by
+  have hok := h.job
+  rw [hj] at hok
+  have hok : JobOK cfg s d j := hok
+  cases hu : s.limbo with
+  | none =>
+    obtain ⟨mf, v0, v, hparts, hlv, hvl, hed, hvok', hmono'⟩ := h.commit_view hj he hbc hpc hu
+    have hm := h.mirror_nolimbo hj hbc hu
+    rw [hlv] at hm
+    obtain ⟨m1, m2, m3⟩ : Mirror s v := hm
+    obtain ⟨v1, hv1, hvok1, _⟩ := hparts.views mf.unsynced.length (Nat.le_refl _)
+    rw [hvl] at hv1; cases hv1
+    have hlc := hvok1.live_clause (s := s) (e := e) (j := j) m1 m3 hed.shape.1 (fun o ho => (hed.fresh o ho).1)
+    rw [m1, m2, m3] at hvok'
+    rw [m2] at hmono'
+    have hmono := hed.mono
+    rw [m2, m3] at hmono
+    exact ⟨mf, v0, hparts, hvok', hmono', hmono.1, hmono.2.2.1, hmono.2.2.2.1, hmono.2.1, hlc⟩
+  | some u =>
+    have hph : s.phase = .running := by
+      rcases hp : s.phase with _ | _ | _
+      · have := h.limbo_none_of_recovering (by rw [hp]; decide); rw [hu] at this; cases this
+      · have := h.limbo_none_of_recovering (by rw [hp]; decide); rw [hu] at this; cases this
+      · rfl
+    have hrun := h.run hph
+    have hb := h.bounds (by rw [hph]; decide)
+    have hlf : LimboFacts s d u := by
+      have := hrun.limbo
+      unfold LimboOK at this
+      rw [hu] at this
+      exact this
+    obtain ⟨mf, v0, vl, hparts, hlv, hvl, hvok, hmono⟩ := h.disk.last
+    have hbv := hb.all mf hparts.cur _ (Nat.le_refl _) vl hvl
+    have hsett := hok.mirror_before hbc
+    unfold Settled at hsett
+    have hm := (holds_some hsett hparts.cur).2
+    rw [hlv] at hm
+    have hm : MirrorE s u vl := (MirrorL.of_some hu).1 hm
+    obtain ⟨m1, m2, m3⟩ := hm
+    rcases hlf.2.2.2.2.2.2.2 with hown | horph
+    · -- the job retries the commit of the edit the storage already shows
+      rw [hj] at hown
+      obtain ⟨hue, _⟩ : j.edit = some u ∧ j.pc.retry = true := hown
+      rw [he] at hue
+      cases hue
+      have hsq : seqHi s = sqCap s j := by
+        unfold seqHi
+        rw [hj]
+        simp only [hu, Option.isSome_some, or_true, if_true]
+      refine ⟨mf, v0, hparts, ?_, by rw [← m2]; exact hmono, hlf.2.2.2.1, by rw [← m3, ← hsq]; exact hbv.1,
+        fun hr => by rw [← m2]; exact hbv.2.2 hr, hlf.2.2.2.2.1, hlf.2.2.2.2.2.1⟩
+      have : vl = ⟨applyEdit s.live e, e.jn.getD s.stJn, e.sq.getD s.stSq, vl.nf⟩ := by
+        cases vl; simp only at m1 m2 m3; simp [m1, m2, m3]
+      rw [this] at hvok
+      refine hvok.with_nf (fun t ht => ?_) ?_
+      · have := (hvok.tables t ht).1
+        exact Nat.lt_of_lt_of_le this hbv.2.1
+      · exact Nat.lt_of_lt_of_le hvok.jnf hbv.2.1
+    · -- a discarded transaction's edit: the session's view is the last view without its table
+      obtain ⟨hvs, hjn, hsqle⟩ := hvok.drop_orphan ⟨m1, m2, m3⟩ hlf horph
+      have hgfin : vl.sq ≤ s.seq := by
+        obtain ⟨_, _, o3⟩ := horph
+        rw [holds_iff] at o3
+        obtain ⟨t, _, _, _, o4⟩ := o3
+        rw [holds_iff] at o4
+        obtain ⟨tf, _, _, _, o5⟩ := o4
+        rw [holds_iff] at o5
+        obtain ⟨g, _, _, hsq, _, _, hfin, _⟩ := o5
+        rw [m3, hsq]
+        simp only [Option.getD_some]
+        omega
+      have hbase : BaseView cfg s d ⟨s.live, s.stJn, s.stSq, vl.nf⟩ := by
+        refine ⟨⟨rfl, rfl, rfl⟩, hvs, ?_, ?_, by show s.stSq ≤ s.seq; omega, hbv.2.1,
+          fun hr => by show s.stJn ≤ s.jcur; rw [← hjn]; exact hbv.2.2 hr, ?_, ?_⟩
+        · intro p hp hge
+          exact hparts.jasc p (mem_relJournals.2 ⟨hp, by have : s.stJn ≤ p.1 := hge; omega⟩)
+        · intro p hp hge q hq hlt
+          have : s.stJn ≤ p.1 := hge
+          exact hparts.jord p (mem_relJournals.2 ⟨hp, by omega⟩) q (mem_relJournals.2 ⟨hq, by omega⟩) hlt
+        · rw [hj]
+          intro o ho
+          have hf := holds_some (holds_some (hok.fresh.2 hbc) hparts.cur _ (Nat.le_refl _)) hvl
+          rcases hf.1 o ho with h0 | h0
+          · exact h0
+          · -- the ghost edit is not the job's: it adds a table below the job's outputs
+            exfalso
+            obtain ⟨_, _, hje, _⟩ := h0
+            rw [hu, he] at hje
+            have hue : u = e := Option.some.inj hje
+            obtain ⟨_, _, o3⟩ := horph
+            rw [holds_iff] at o3
+            obtain ⟨t, _, hadd, _, o4⟩ := o3
+            rw [holds_iff] at o4
+            obtain ⟨tf, _, _, _, o5⟩ := o4
+            rw [holds_iff] at o5
+            obtain ⟨g, _, _, _, _, _, _, o6⟩ := o5
+            rw [hj] at o6
+            have hsh := hok.shape
+            rw [he] at hsh
+            have : u.added = j.outs.map (·.1) := by rw [hue]; exact hsh.1
+            rw [hadd] at this
+            have hmem : t ∈ j.outs.map (·.1) := by rw [← this]; exact List.mem_singleton.2 rfl
+            obtain ⟨o', ho', hto⟩ := List.mem_map.1 hmem
+            have := o6 o' ho'
+            omega
+        · intro hr p hp hge
+          have r1 := holds_some hrun.rel hparts.cur
+          have r2 := holds_some r1 hparts.hv0
+          have : s.stJn ≤ p.1 := hge
+          exact r2 p hp (by omega)
+      have hed := h.editOK_base hj he hbc hph hbase
+      have hext := hvs.extend hed (fun g hg => hg) (fun g hg => hg) (hok.outs_on_disk hbc hpc.2) s.nextFile hbv.2.1
+        (fun o ho => (hed.fresh o ho).2) hed.mono.2.2.2.2
+      have hlc := hvs.live_clause (s := s) (e := e) (j := j) rfl rfl hed.shape.1 (fun o ho => (hed.fresh o ho).1)
+      exact ⟨mf, v0, hparts, hext, by have h1 : s.stJn ≤ e.jn.getD s.stJn := hed.mono.1; rw [hjn] at hmono; exact Nat.le_trans hmono h1, hed.mono.1,
+        hed.mono.2.2.1, hed.mono.2.2.2.1, hed.mono.2.1, hlc⟩
 
 end GoLevel.Dur
